@@ -60,7 +60,8 @@ fn leaves_envelope(op: &Op) -> bool {
             Call::Disp(DispMsg::UConfig(h, r, sd, bd, _, _)) => h.is_some() || r.is_some() || sd.is_some() || bd.is_some(),
             Call::Disp(DispMsg::USwap(..)) | Call::Disp(DispMsg::UOracle(..)) => true,
             // adding (or re-adding) a swap denom keeps E3 ("swap_denoms contains both reward denoms"); removing one may not
-            Call::Disp(DispMsg::USwapDenom(_, is_add)) => !*is_add,
+            // (the third denomination is not one of the two reward denominations)
+            Call::Disp(DispMsg::USwapDenom(d, is_add)) => !*is_add && *d != 2,
             Call::Reg(RegMsg::UConfig(h)) => h.is_some(),
             Call::Tok(TokMsg::UMinter(..)) => true,
             _ => false,
